@@ -4,6 +4,8 @@
 #   suite passes with it, demo fails with it and passes without it;
 # then applies it to /repo, runs the given quick checks, restores /repo, and
 # stores everything under /verif/seeded/<name>/.
+# runs with a seeded change applied write evidence/<id>.seeded.json, never the committed evidence file
+export VERIF_EVIDENCE_SUFFIX=.seeded
 set -u
 . /verif/env.sh
 src=$1; name=$2; shift 2
